@@ -28,6 +28,9 @@ CLAIMED = {
     "C16": (SIM + "seeded schedules of 2-4 concurrent writers on two ledgers of one bucket, on shared and on disjoint accounts, with writes that fail and roll back; the real InsertTransaction / InsertLog (which sequence, when it is drawn relative to the locks) run over the SQL interpreter with non-transactional sequences; invariant at every commit: ids added are above every id committed before on that ledger; final: a ledger's ids never exceed the id-drawing attempts made on it",
             "Seeded exploration. KNOWN FINDINGS (known_findings.json): transaction ids do not follow commit order for concurrent writers sharing no volume row, and log ids do not on ledgers that do not hash synchronously; every other inversion, and any dependence of one ledger's ids on another's writes, is reported.",
             TRUSTED + "SCOPE LIMIT: uniqueness is enforced by the declared primary keys (a duplicate shows as a refused write); sequence semantics (non-transactional, gaps on rollback) are the contract S12.", "15/C16"),
+    "C17": (SIM + "seeded schedules of 2-3 clients saving and deleting the SAME metadata keys on the same accounts and transactions (plus metadata set by scripts and at creation), with store faults, ambiguous commits and crashes; the real UpdateTransactionMetadata / DeleteTransactionMetadata / UpsertAccounts / DeleteAccountMetadata statements (jsonb ||, -, @>) are interpreted; final-state oracle folding the committed logs in COMMIT order",
+            "Seeded exploration of the FIRST sentence of C17 only: the current metadata of every account and transaction equals the saves applied in commit order (last write wins per key) minus the deleted keys; every written value is unique so each stored value is attributable to one write.",
+            TRUSTED + "SCOPE LIMIT: the history / point-in-time sentences of C17 (metadata-history triggers, PIT joins in resource_accounts.go / resource_transactions.go) are SQL that does not run: not decided. Chart default metadata on first creation is checked under C29.", "15/C17"),
     "C18": (SIM + "seeded histories with back-dated, equal and future-dated transactions, script-set account metadata, metadata-only accounts, deletes on unknown accounts and failing writes, 1-3 concurrent clients, store faults and crashes; the real UpsertAccounts (its raw CTE interpreted statement by statement), UpdateAccountsMetadata and DeleteAccountMetadata run over the SQL interpreter; final-state oracle derived from the committed logs only + invariants at every commit",
             "Seeded exploration; an account row exists iff a committed log involves the account in a transaction or writes metadata on it; first usage equals the earliest of those events; insertion date never changes and first usage never moves later.",
             TRUSTED + "SCOPE LIMIT: the account listing routes (SQL) do not run; the oracle reads the accounts table. KNOWN FINDING: a metadata write on an existing account never lowers first usage.", "15/C18"),
@@ -87,7 +90,7 @@ NA_READ = ("what the statement quantifies over is observed through the repositor
 NA_PURE = "pure function of its input: no schedule, clock, fault, crash point or shared state for a simulator to act on (DESIGN.md section 9); a property-based/differential test would be the right tool, not this technique"
 
 NOT_APPLICABLE = {
-    "C02": NA_READ, "C04": NA_PG, "C05": NA_READ, "C10": NA_PG, "C17": NA_READ,
+    "C02": NA_READ, "C04": NA_PG, "C05": NA_READ, "C10": NA_PG,
     "C20": NA_READ, "C21": NA_READ, "C34": NA_PG,
     "C22": NA_PURE, "C23": NA_PURE, "C24": NA_PURE, "C26": NA_PURE, "C27": NA_PURE, "C28": NA_PURE, "C30": NA_PURE, "C36": NA_PURE, "C37": NA_PURE,
 }
